@@ -151,7 +151,7 @@ class Tokenizer:
                 self._with_macro = False
                 break
             elif tok.type == Token.INDENT:
-                if (not is_indented) and (idx == 1):
+                if not is_indented:  # the block's own indentation (comment/blank lines may precede it)
                     is_indented = True
                     continue
                 indent += 1
@@ -171,7 +171,8 @@ class Tokenizer:
 
             # update captured lines
             if tok.start[0] not in lines:
-                lines[tok.start[0]] = tok.line if is_indented else tok.line[tok.start[1] :]
+                on_header_line = tok.start[0] == start[0]
+                lines[tok.start[0]] = tok.line[tok.start[1] :] if on_header_line else tok.line
 
         string = "".join(lines.values())
         if is_indented:
